@@ -33,6 +33,17 @@ func TestC15(t *testing.T) {
 	env := vkit.Load("C15")
 	rec := vkit.NewRec(env)
 	defer rec.Finish()
+	if env.Replay != "" {
+		var probe repairClusterCase
+		if err := vkit.ReadReplay(env.Replay, &probe); err == nil && probe.Node != "" && probe.Other.Kind != "" {
+			c15Cluster(t, env, rec, &probe)
+			return
+		}
+	} else if env.NBatch > 1 && env.Batch == env.NBatch-1 {
+		// last batch: the repair at the cluster API, concurrent with an operation on the node (repair_cluster_test.go)
+		c15Cluster(t, env, rec, nil)
+		return
+	}
 	me := newMgrEnv(t)
 	jr := vkit.OpenJournal(env)
 	ctx := context.Background()
